@@ -13,7 +13,8 @@ from prove import Job
 
 FG = 'include/oneapi/tbb/flow_graph.h'
 IB = 'include/oneapi/tbb/detail/_flow_graph_item_buffer_impl.h'
-PREVIEW = {'__TBB_PREVIEW_FLOW_GRAPH_TRY_PUT_AND_WAIT': 0, 'TBB_USE_ASSERT': 0, 'TBB_DEPRECATED_SEQUENCER_DUPLICATES': 0}
+JI = 'include/oneapi/tbb/detail/_flow_graph_join_impl.h'
+PREVIEW = {'__TBB_PREVIEW_FLOW_GRAPH_TRY_PUT_AND_WAIT': 0, 'TBB_USE_ASSERT': 0, 'TBB_DEPRECATED_SEQUENCER_DUPLICATES': 0, 'TBB_USE_DEBUG': 0}
 
 
 def resolved(sl, name):
@@ -69,6 +70,399 @@ def extract_item_buffer(ctx, sliced, fired, more=()):
     return ib, rw, conv
 
 
+STATUS = (r'(\w+)->status\.store\( ?([^,;]*?), std::memory_order_release ?\);', r'SET_STATUS(\1, \2);', 0)
+
+
+def _enum(rel, pat, what):
+    """the operation-type enum of a handler is taken over verbatim (it is valid C)"""
+    m = re.search(pat, cxx2c.mask(load(rel)))
+    if not m:
+        raise ExtractionBreak('%s: %s not found' % (rel, what))
+    return re.sub(r'enum op_type', 'enum', load(rel)[m.start():m.end()]) + '\n'
+
+
+def outline_case(rw, text, label, fname, params, args):
+    """`case <label>: { BLOCK }` -> `case <label>: { fname(args); }` with BLOCK wrapped, unchanged, as the body of `static void fname(params)`.
+    Needed because goto-instrument's dfcc cannot handle a loop under contract nested in a loop without contract in one function.  BLOCK must not
+    leave itself by break / continue / return / goto (checked), so wrapping it in a function keeps statements, conditions, order and control flow."""
+    m = re.search(r'case %s\s*:\s*\{' % label, cxx2c.mask(text))
+    if not m:
+        raise ExtractionBreak('%s: `case %s: {` not found' % (rw.name, label))
+    o = m.end() - 1
+    c = cxx2c.match_close(cxx2c.mask(text), o)
+    block = text[o:c + 1]
+    if re.search(r'\b(break|continue|return|goto)\b', cxx2c.mask(block)):
+        raise ExtractionBreak('%s: case %s block leaves itself by break/continue/return/goto: cannot be outlined' % (rw.name, label))
+    rw.fired['outline `case %s` block into %s()' % (label, fname)] = 1
+    return 'static void %s(%s) %s\n' % (fname, params, block), text[:o] + '{ %s(%s); }' % (fname, args) + text[c + 1:]
+
+
+def outline_loop_body(rw, text, header, fname, params, args, contract=''):
+    """`<header> { BODY }` (header = regex of a loop header, ending just before the body's brace) -> `<header> { fname(args); }` with BODY wrapped, unchanged,
+    as the body of `static void fname(params) <contract>`.  goto-instrument's dfcc does not cope with two nested loops under contract whose assigns clauses
+    both name a whole heap object (symbolic execution does not finish), so the inner loop gets a function of its own and the outer loop uses that function's
+    contract.  BODY must not leave itself by break / continue / return / goto except inside its own nested loops (checked)."""
+    mk = cxx2c.mask(text)
+    m = re.search(header + r'\s*\{', mk)
+    if not m:
+        raise ExtractionBreak('%s: loop header %r not found' % (rw.name, header))
+    o = m.end() - 1
+    c = cxx2c.match_close(mk, o)
+    block = text[o:c + 1]
+    bm = list(cxx2c.mask(block))
+    for lm in re.finditer(r'\b(do|for|while)\b', ''.join(bm)):        # blank the bodies of nested loops: a break / continue there stays inside BODY
+        b = ''.join(bm).find('{', lm.end())
+        if b < 0:
+            continue
+        e = cxx2c.match_close(''.join(bm), b)
+        for i in range(b + 1, e):
+            bm[i] = ' '
+    if re.search(r'\b(break|continue|return|goto)\b', ''.join(bm)):
+        raise ExtractionBreak('%s: loop body leaves itself by break/continue/return/goto: cannot be outlined' % rw.name)
+    rw.fired['outline loop body into %s()' % fname] = 1
+    return 'static void %s(%s)\n%s %s\n' % (fname, params, contract, block), text[:o] + '{ CALL_%s(%s); }' % (fname, args) + text[c + 1:]
+
+
+def _nocxx(name, txt):
+    bad = cxx2c.c_residue(txt)
+    if bad:
+        raise ExtractionBreak('%s: C++ residue %s' % (name, bad))
+    return txt
+
+
+def extract_join(ctx, sliced, fired, ib):
+    """join_node: the three port handlers, the three front ends (join_node_FE) with the tuple recursion of join_helper, and join_node_base's handler."""
+    # ---------------- queueing_port::handle_operations on the real item_buffer ----------------
+    qp = CClass(JI, r'class queueing_port : public receiver<T>, public item_buffer<T> \{', 'item_buffer', tbind={'T': 'item_type'}, rw=Rewriter('queueing_port'))
+    qp.members = ib.members
+    s = resolved(qp.method(r'void handle_operations\(queueing_port_operation\* op_list\)'), 'qp_handle_operations')
+    t = qp.convert(s, 'qp_handle_operations', methods=['buffer_empty', 'push_back', 'front', 'destroy_front', 'my_item_valid'], pre=[
+        (r'this->push_back\(current->my_val\);', 'this->push_back(&current->my_val);', 0),
+        (r'\*\(current->my_arg\) = this->front\(\);', '*(current->my_arg) = *this->front();', 0),
+        (r'my_join->decrement_port_count\((true|false)\)', r'FE_decrement_port_count(self, \1)', 0), STATUS])
+    t = tag_loops(t, 'qpho', qp.rw, expect=1)
+    common.write(ctx, 'queueing_port.inc', _nocxx('queueing_port.inc', _enum(JI, r'enum op_type \{ get__item, res_port, try__put_task\s*\};', 'queueing_port::op_type') + t))
+    sliced += qp.sliced
+    fired['queueing_port'] = dict(qp.rw.fired)
+    # ---------------- join_helper<N> / join_helper<1>: template recursion over the tuple -> run-time recursion over N ----------------
+    rh = Rewriter('join_helper')
+    JH = [('reserve', r'static inline bool reserve\( InputTuple &my_input, OutputTuple &out\)', 'bool', True),
+          ('get_my_item', r'static inline bool get_my_item\( InputTuple &my_input, OutputTuple &out\)', 'bool', True),
+          ('get_items', r'static inline bool get_items\(InputTuple &my_input, OutputTuple &out\)', 'bool', True),
+          ('reset_my_port', r'static inline void reset_my_port\(InputTuple &my_input\)', 'void', False),
+          ('reset_ports', r'static inline void reset_ports\(InputTuple& my_input\)', 'void', False),
+          ('consume_reservations', r'static inline void consume_reservations\( TupleType &my_input \)', 'void', False),
+          ('release_my_reservation', r'static inline void release_my_reservation\( TupleType &my_input \)', 'void', False),
+          ('release_reservations', r'static inline void release_reservations\( TupleType &my_input\)', 'void', False)]
+    names = '|'.join(n for n, _, _, _ in JH)
+
+    def jh_body(sl):
+        t = sl.text[sl.text.index('{'):]
+        t = rh.sub(t, r'std::get<\s*(N-1|0)\s*>\(\s*my_input\s*\)\.(\w+)\(\s*std::get<\s*(N-1|0)\s*>\(\s*out\s*\)\s*\)', r'PORT_\2(my_input, \1, TUPLE_AT(out, \3))', 0, name='std::get<i>(ports).m(std::get<i>(out)) -> PORT_m(ports, i, TUPLE_AT(out, i))')
+        t = rh.sub(t, r'std::get<\s*(N-1|0)\s*>\(\s*my_input\s*\)\.(\w+)\(\s*\)', r'PORT_\2(my_input, \1)', 0, name='std::get<i>(ports).m() -> PORT_m(ports, i)')
+        t = rh.sub(t, r'join_helper<N-1>::(\w+)\(\s*my_input\s*(, out)?\s*\)', r'jh_\1(N-1, my_input\2)', 0, name='join_helper<N-1>::f -> jh_f(N-1, ...)')
+        t = rh.sub(t, r'(?<![\w:.>_])(%s)\(\s*my_input\s*(, out)?\s*\)' % names, r'jh_\1(N, my_input\2)', 0, name='sibling static f -> jh_f(N, ...)')
+        return rh.std(t)
+    protos, defs = [], []
+    for nm, sig, ret, has_out in JH:
+        gen = slice_block(JI, sig, within=r'struct join_helper \{')
+        one = slice_block(JI, sig, within=r'struct join_helper<1> \{')
+        sliced += ['%s:%d join_helper<N>::%s' % (JI, gen.line, nm), '%s:%d join_helper<1>::%s' % (JI, one.line, nm)]
+        csig = 'static %s jh_%s(int N, ports_t* my_input%s)' % (ret, nm, ', output_type* out' if has_out else '')
+        protos.append(csig + ';\n')
+        # the specialisation join_helper<1> is selected when N == 1, the primary template otherwise
+        defs.append('%s {\n    if (N == 1) { %s %s}\n    %s\n}\n' % (csig, jh_body(one), '' if ret != 'void' else 'return; ', jh_body(gen)))
+    rh.fired['template<int N> recursion -> run-time parameter N (join_helper<1> selected by `if (N == 1)`)'] = len(JH)
+    common.write(ctx, 'join_helper.inc', _nocxx('join_helper.inc', ''.join(protos) + '\n'.join(defs)))
+    fired['join_helper'] = dict(rh.fired)
+    # ---------------- join_node_FE<queueing> / join_node_FE<reserving> ----------------
+    FEPRE = [(r'join_helper<N>::(\w+)\(my_inputs(, out)?\)', r'jh_\1(N, self\2)', 0),
+             (r'is_graph_active\(this->graph_ref\)', 'STUB_is_graph_active()', 0),
+             (r'd1::small_object_allocator allocator\{\};', 'RG_NOP();', 0), (r'typedef forward_task_bypass<base_node_type> task_type;', 'RG_NOP();', 0),
+             (r'allocator\.new_object<task_type>\(graph_ref, allocator, \*my_node\)', 'STUB_new_forward_task(self)', 0),
+             (r'spawn_in_graph_arena\(this->graph_ref, \*t\);', 'STUB_spawn(t);', 0),
+             # implicit conversions / assignment of std::atomic<size_t> are loads / stores
+             (r'if\((ports_with_no_\w+)\)', r'if(\1.load())', 0), (r'return !(ports_with_no_\w+);', r'return !\1.load();', 0), (r'\b(ports_with_no_\w+) = N;', r'\1.store(N);', 0)]
+    for pol, base, cnt, meths in (
+            ('queueing', 'queueing_forwarding_base', 'ports_with_no_items',
+             [(r'void reset_port_count\(\)', 'reset_port_count'), (r'graph_task\* decrement_port_count\(bool handle_task\) override', 'decrement_port_count'), (r'bool tuple_build_may_succeed\(\)', 'tuple_build_may_succeed'),
+              (r'bool try_to_make_tuple\(output_type &out\)', 'try_to_make_tuple'), (r'void tuple_accepted\(\)', 'tuple_accepted'), (r'void tuple_rejected\(\)', 'tuple_rejected')]),
+            ('reserving', 'reserving_forwarding_base', 'ports_with_no_inputs',
+             [(r'void increment_port_count\(\) override', 'increment_port_count'), (r'graph_task\* decrement_port_count\(\) override', 'decrement_port_count'), (r'bool tuple_build_may_succeed\(\)', 'tuple_build_may_succeed'),
+              (r'bool try_to_make_tuple\(output_type &out\)', 'try_to_make_tuple'), (r'void tuple_accepted\(\)', 'tuple_accepted'), (r'void tuple_rejected\(\)', 'tuple_rejected')])):
+        fe = CClass(JI, r'class join_node_FE<%s, InputTuple, OutputTuple> : public %s \{' % (pol, base), 'fe', tbind={'output_type': 'output_type'}, rw=Rewriter('join_node_FE<%s>' % pol))
+        if not re.search(r'std::atomic<std::size_t> %s;' % cnt, fe.text):
+            raise ExtractionBreak('join_node_FE<%s>::%s declaration changed' % (pol, cnt))
+        fe.members = [('size_t', cnt, '')]
+        out = []
+        for sig, nm in meths:
+            t = fe.convert(resolved(fe.method(sig), nm), 'fe_' + nm, methods=['reset_port_count'], pre=FEPRE)
+            t = re.sub(r'\)\s*override\s*\{', ') {', t, 1)
+            t = fe.rw.atomics(t, [cnt], 0)
+            t = fe.rw.number_sites(t, nm, by_kind=True)
+            out.append(t)
+        common.write(ctx, 'join_fe_%s_struct.inc' % pol, fe.struct_decl())
+        common.write(ctx, 'join_fe_%s.inc' % pol, _nocxx('join_fe_%s.inc' % pol, ''.join(x[:x.index('{')].strip() + ';\n' for x in out) + '\n'.join(out)))
+        sliced += fe.sliced
+        fired['join_node_FE<%s>' % pol] = dict(fe.rw.fired)
+
+
+def extract_join_base(ctx, sliced, fired):
+    # ---------------- reserving_port::handle_operations ----------------
+    rp = CClass(JI, r'class reserving_port : public receiver<T> \{', 'rport', tbind={'T': 'item_type'}, rw=Rewriter('reserving_port'))
+    for pat, what in ((r'bool reserved;', 'reserved'), (r'reservable_predecessor_cache< T, null_mutex > my_predecessors;', 'my_predecessors'), (r'reserving_forwarding_base \*my_join;', 'my_join')):
+        if not re.search(pat, rp.text):
+            raise ExtractionBreak('reserving_port::%s declaration changed' % what)
+    rp.members = [('bool', 'reserved', '')]
+    s = resolved(rp.method(r'void handle_operations\(reserving_port_operation\* op_list\)'), 'rp_handle_operations')
+    t = rp.convert(s, 'rp_handle_operations', pre=[
+        (r'my_predecessors\.empty\(\)', 'PC_empty(self)', 0), (r'my_predecessors\.add\(\*\(current->my_pred\)\);', 'PC_add(self, current->my_pred);', 0),
+        (r'my_predecessors\.remove\(\*\(current->my_pred\)\);', 'PC_remove(self, current->my_pred);', 0),
+        (r'my_predecessors\.try_reserve\(\*\(current->my_arg\)\)', 'PC_try_reserve(self, current->my_arg)', 0),
+        (r'my_predecessors\.try_release\( ?\);', 'PC_try_release(self);', 0), (r'my_predecessors\.try_consume\( ?\);', 'PC_try_consume(self);', 0),
+        (r'my_join->decrement_port_count\(\)', 'FE_decrement_port_count(self)', 0), (r'my_join->increment_port_count\(\)', 'FE_increment_port_count(self)', 0), STATUS])
+    t = tag_loops(t, 'rpho', rp.rw, expect=1)
+    common.write(ctx, 'reserving_port.inc', _nocxx('reserving_port.inc', _enum(JI, r'enum op_type \{ reg_pred, rem_pred, res_item, rel_res, con_res\s*\};', 'reserving_port::op_type') + rp.struct_decl() + t))
+    sliced += rp.sliced
+    fired['reserving_port'] = dict(rp.rw.fired)
+    # ---------------- join_node_base::handle_operations ----------------
+    jb = CClass(JI, r'class join_node_base : public graph_node, public join_node_FE<JP, InputTuple, OutputTuple>,', 'jbase', tbind={'output_type': 'output_type'}, rw=Rewriter('join_node_base'))
+    for pat, what in ((r'bool forwarder_busy;', 'forwarder_busy'), (r'broadcast_cache<output_type, null_rw_mutex> my_successors;', 'my_successors')):
+        if not re.search(pat, jb.text):
+            raise ExtractionBreak('join_node_base::%s declaration changed' % what)
+    jb.members = [('bool', 'forwarder_busy', '')]
+    s = resolved(jb.method(r'void handle_operations\(join_node_base_operation\* op_list\)'), 'jb_handle_operations')
+    t = jb.convert(s, 'jb_handle_operations', pre=[
+        (r'my_successors\.register_successor\(\*\(current->my_succ\)\);', 'STUB_succ_register(self, current->my_succ);', 0),
+        (r'my_successors\.remove_successor\(\*\(current->my_succ\)\);', 'STUB_succ_remove(self, current->my_succ);', 0),
+        (r'(?<![\w.>])tuple_build_may_succeed\(\)', 'FE_tuple_build_may_succeed(self)', 0),
+        (r'(?<![\w.>])try_to_make_tuple\(\*\(current->my_arg\)\)', 'FE_try_to_make_tuple(self, current->my_arg)', 0),
+        (r'(?<![\w.>])try_to_make_tuple\(out\)', 'FE_try_to_make_tuple(self, &out)', 0),
+        (r'(?<![\w.>])tuple_accepted\(\);', 'FE_tuple_accepted(self);', 0), (r'(?<![\w.>])tuple_rejected\(\);', 'FE_tuple_rejected(self);', 0),
+        (r'is_graph_active\(my_graph\)', 'STUB_is_graph_active()', 0),
+        (r'd1::small_object_allocator allocator\{\};', 'RG_NOP();', 0), (r'typedef forward_task_bypass< join_node_base<JP, InputTuple, OutputTuple> > task_type;', 'RG_NOP();', 0),
+        (r'allocator\.new_object<task_type>\(my_graph, allocator, \*this\)', 'STUB_new_forward_task(self)', 0),
+        (r'spawn_in_graph_arena\(my_graph, \*t\);', 'STUB_spawn(t);', 0),
+        (r'my_successors\.try_put_task\(out\)', 'STUB_succ_try_put_task(self, &out)', 0),
+        (r'combine_tasks\(my_graph, last_task, new_task\)', 'combine_tasks(STUB_graph(), last_task, new_task)', 0), STATUS])
+    fwd, t = outline_case(jb.rw, t, 'do_fwrd_bypass', 'jb_case_do_fwrd_bypass', 'struct jbase* self, join_node_base_operation* current', 'self, current')
+    t = tag_loops(t, 'jbho', jb.rw, expect=1)
+    fwd = tag_loops(fwd, 'jbfwd', jb.rw, expect=1)
+    ct = slice_block(FG, r'static inline graph_task\* combine_tasks\(graph& g, graph_task\* left, graph_task\* right\)')
+    c = jb.rw.sub(ct.text, r'static inline graph_task\* combine_tasks\(graph& g, graph_task\* left, graph_task\* right\)', 'static graph_task* combine_tasks(graph* g, graph_task* left, graph_task* right)', 1, 1, name='sig (ref-param -> pointer)')
+    c = jb.rw.sub(c, r'auto tasks_pair = order_tasks\(left, right\);', 'struct task_pair tasks_pair = STUB_order_tasks(left, right);', 0, name='order_tasks -> stub (either order)')
+    c = jb.rw.sub(c, r'spawn_in_graph_arena\(g, \*([\w.]+)\);', r'STUB_spawn(\1);', 0, name='spawn_in_graph_arena -> stub')
+    c = jb.rw.std(c)
+    common.write(ctx, 'join_base.inc', _nocxx('join_base.inc', _enum(JI, r'enum op_type \{ reg_succ, rem_succ, try__get, do_fwrd, do_fwrd_bypass\s*\};', 'join_node_base::op_type') + jb.struct_decl() + c + '\n' + fwd + t))
+    sliced += jb.sliced + ['%s:%d combine_tasks' % (FG, ct.line)]
+    fired['join_node_base'] = dict(jb.rw.fired)
+
+
+TB = 'include/oneapi/tbb/detail/_flow_graph_tagged_buffer_impl.h'
+
+
+def _proto(t):
+    return t[:t.index('{')].strip() + ';\n'
+
+
+def extract_bufnode_handler(ctx, sliced, fired, ib, ibtxt, extra_members, derived_cls, derived_sigs, fname, dpre=(), dmethods=None, anchors=(), outlines=()):
+    """buffer_node::handle_operations_impl / internal_forward_task_impl / internal_reg_succ / internal_rem_succ (+ the listed overrides of a derived node)
+    on the real item_buffer: one flattened C object `struct item_buffer` = item_buffer + reservable_item_buffer::my_reserved + buffer_node::forwarder_busy
+    + the derived node's members.  Virtual internal_* calls and derived-> calls are dispatched by macros VIRT_* / DERIVED_* of the harness."""
+    for pat, what in ((r'enum op_type \{reg_succ, rem_succ, req_item, res_item, rel_res, con_res, put_item, try_fwd_task\s*\};', 'buffer_node::op_type'),
+                      (r'bool forwarder_busy;', 'buffer_node::forwarder_busy'), (r'round_robin_cache< T, null_rw_mutex > my_successors;', 'buffer_node::my_successors'), (r'bool my_reserved;', 'my_reserved')):
+        if not re.search(pat, load(FG) + load(IB)):
+            raise ExtractionBreak('%s changed' % what)
+    members = ib.members + [('bool', 'my_reserved', ''), ('bool', 'forwarder_busy', '')] + list(extra_members)
+    if ibtxt.count('    size_t my_tail;\n};') != 1:
+        raise ExtractionBreak('item_buffer struct layout changed')
+    ibtxt = ibtxt.replace('    size_t my_tail;\n};', '    size_t my_tail;\n    bool my_reserved;      /* reservable_item_buffer */\n    bool forwarder_busy;   /* buffer_node */\n' +
+                          ''.join('    %s %s%s;   /* %s */\n' % (ty, nm, arr, derived_cls) for ty, nm, arr in extra_members) + '};')
+    TBN = {'size_type': 'size_t', 'derived_type': 'struct item_buffer', 'T': 'item_type', 'input_type': 'item_type'}
+    bn = CClass(FG, r'class buffer_node\s*: public graph_node', 'item_buffer', tbind=TBN, rw=Rewriter(fname))
+    bn.members = members
+    rb = bn.rw
+    IBM = ['my_item_valid', 'back', 'front', 'destroy_back', 'destroy_front', 'push_back', 'pop_back', 'pop_front', 'get_my_item', 'destroy_item', 'move_item', 'swap_items', 'grow_my_array', 'place_item', 'fetch_item']
+    OPS = 'internal_reg_succ|internal_rem_succ|internal_pop|internal_reserve|internal_release|internal_consume|internal_push|internal_forward_task'
+    PRE = list(dpre) + [(r'static_cast<class_type\*>\(derived\) == this', 'derived == self', 0),
+           (r'\b(%s)\(tmp\)' % OPS, r'VIRT_\1(self, tmp)', 0),
+           (r'derived->order\(\);', 'DERIVED_order(derived);', 0), (r'derived->is_item_valid\(\)', 'DERIVED_is_item_valid(derived)', 0),
+           (r'derived->try_put_and_add_task\(last_task\)', 'DERIVED_try_put_and_add_task(derived, &last_task)', 0),
+           (r'is_graph_active\(this->my_graph\)', 'STUB_is_graph_active()', 0),
+           (r'typedef forward_task_bypass<class_type> task_type;', 'RG_NOP();', 0), (r'd1::small_object_allocator allocator\{\};', 'RG_NOP();', 0),
+           (r'allocator\.new_object<task_type>\(graph_reference\(\), allocator, \*this\)', 'STUB_new_forward_task(self)', 0),
+           (r'graph ?& ?(\w+) = this->(?:my_graph|graph_reference\(\));', r'graph* \1 = STUB_graph();', 0),
+           (r'(?:this->)?my_successors\.size\(\)', 'STUB_succ_size(self)', 0), (r'(?:this->)?my_successors\.try_put_task\(', 'STUB_succ_try_put_task(self, ', 0),
+           (r'my_successors\.register_successor\(\*\(op->r\)\);', 'STUB_succ_register(self, op->r);', 0), (r'my_successors\.remove_successor\(\*\(op->r\)\);', 'STUB_succ_remove(self, op->r);', 0),
+           (r'(?:this->)?handle_operations_impl\(op_list, this\)', 'bn_handle_operations_impl(self, op_list, self)', 0),
+           (r'(?:this->)?internal_forward_task_impl\(op, this\)', 'bn_internal_forward_task_impl(self, op, self)', 0),
+           (r'this->(consume_front|release_front)\(\)', r'rib_\1(self)', 0), (r'this->reserve_front\(', 'rib_reserve_front(self, ', 0),
+           (r'\*\(op->elem\)', 'op->elem', 0), STATUS]
+
+    def cv(cls, sig, cfn, lp=None, ret=None):
+        t = cls.convert(resolved(cls.method(sig), cfn), cfn, methods=IBM, pre=PRE, ret=ret)
+        if dmethods:
+            t = rb.methods(t, dmethods[0], dmethods[1])
+        hd, body = t[:t.index('{')], t[t.index('{'):]
+        if 'graph_task** last_task' in hd:
+            body = re.sub(r'\blast_task\b', '(*last_task)', body)
+            rb.fired['ref-param use -> deref'] = rb.fired.get('ref-param use -> deref', 0) + 1
+        hd = re.sub(r'\)\s*override\s*$', ') ', hd)
+        t = hd + body
+        if lp:
+            t = tag_loops(t, lp[0], rb, expect=lp[1])
+        return t
+    out = [cv(bn, r'void handle_operations_impl\(buffer_operation \*op_list, derived_type\* derived\)', 'bn_handle_operations_impl', ('bnho', 1)),
+           cv(bn, r'virtual void internal_reg_succ\(buffer_operation \*op\)', 'bn_internal_reg_succ'), cv(bn, r'virtual void internal_rem_succ\(buffer_operation \*op\)', 'bn_internal_rem_succ'),
+           cv(bn, r'void internal_forward_task_impl\(buffer_operation \*op, derived_type\* derived\)', 'bn_internal_forward_task_impl', ('bnfwd', 1))]
+    dn = CClass(FG, derived_cls, 'item_buffer', tbind=TBN, rw=rb)
+    dn.members = members
+    for sig, cfn, lp, ret in derived_sigs:
+        out.append(cv(dn, sig, cfn, lp, ret))
+    ct = slice_block(FG, r'static inline graph_task\* combine_tasks\(graph& g, graph_task\* left, graph_task\* right\)')
+    c = rb.sub(ct.text, r'static inline graph_task\* combine_tasks\(graph& g, graph_task\* left, graph_task\* right\)', 'static graph_task* combine_tasks(graph* g, graph_task* left, graph_task* right)', 1, 1, name='sig (ref-param -> pointer)')
+    c = rb.sub(c, r'auto tasks_pair = order_tasks\(left, right\);', 'struct task_pair tasks_pair = STUB_order_tasks(left, right);', 0, name='order_tasks -> stub (either order)')
+    c = rb.sub(c, r'spawn_in_graph_arena\(g, \*([\w.]+)\);', r'STUB_spawn(\1);', 0, name='spawn_in_graph_arena -> stub')
+    c = rb.std(c)
+    body = '\n'.join(out)
+    for header, ofn, oparams, oargs, ocontract in outlines:
+        fn, body = outline_loop_body(rb, body, header, ofn, oparams, oargs, ocontract)
+        body = 'static void %s(%s);\n' % (ofn, oparams) + body + '\n' + fn
+    for sig_c, macro in anchors:
+        body = rb.lit(body, sig_c + ' {', sig_c + '\n' + macro + ' {', 1, 1, name='contract-anchor ' + macro)
+    common.write(ctx, fname, _nocxx(fname, ibtxt + '\n' + c + '\n' + ''.join(_proto(x) for x in out) + body))
+    sliced += bn.sliced + dn.sliced
+    fired[fname] = dict(rb.fired)
+
+
+def extract_priority(ctx, sliced, fired, ib, ibtxt):
+    PQ = r'class priority_queue_node : public buffer_node<T> \{'
+    if not re.search(r'size_type mark;', load(FG)) or not re.search(r'input_type reserved_item;', load(FG)) or not re.search(r'class priority_queue_node : public buffer_node<T> \{', load(FG)) \
+            or not re.search(r'template<typename T, typename Compare = std::less<T>>\s*class priority_queue_node', load(FG)):
+        raise ExtractionBreak('priority_queue_node: mark / reserved_item / Compare declarations changed')
+    DPRE = [(r'\*\(op->elem\) = prio\(\);', '*op->elem = *prio();', 0), (r'reserved_item = \*\(op->elem\);', 'reserved_item = *op->elem;', 0),
+            (r'prio_push\(\*\(op->elem\)\);', 'prio_push(op->elem);', 0), (r'prio_push\(reserved_item\);', 'prio_push(&reserved_item);', 0),
+            (r'= input_type\(\);', '= ((input_type)0);', 0),
+            # Compare = std::less<T>: compare(a, b) -> COMPARE(a, b) = a < b; get_my_item returns a reference (now a pointer): dereferenced
+            (r'compare\(this->get_my_item\(([^()]*)\),\s*this->get_my_item\(([^()]*)\)\)', r'COMPARE(*this->get_my_item(\1), *this->get_my_item(\2))', 0),
+            (r'compare\(this->get_my_item\(([^()]*)\), to_place\)', r'COMPARE(*this->get_my_item(\1), to_place)', 0),
+            (r'this->fetch_item\(mark, to_place\);', 'this->fetch_item(mark, &to_place);', 0), (r'this->place_item\(cur_pos, to_place\);', 'this->place_item(cur_pos, &to_place);', 0)]
+    sigs = [(r'void internal_forward_task\(prio_operation \*op\) override', 'pq_internal_forward_task', None, None),
+            (r'void handle_operations\(prio_operation \*op_list\) override', 'pq_handle_operations', None, None),
+            (r'bool internal_push\(prio_operation \*op\) override', 'pq_internal_push', None, None),
+            (r'void internal_pop\(prio_operation \*op\) override', 'pq_internal_pop', None, None),
+            (r'void internal_reserve\(prio_operation \*op\) override', 'pq_internal_reserve', None, None),
+            (r'void internal_consume\(prio_operation \*op\) override', 'pq_internal_consume', None, None),
+            (r'void internal_release\(prio_operation \*op\) override', 'pq_internal_release', None, None),
+            (r'void order\(\)', 'pq_order', None, None), (r'bool is_item_valid\(\)', 'pq_is_item_valid', None, None),
+            (r'void try_put_and_add_task\(graph_task\*& last_task\)', 'pq_try_put_and_add_task', None, None),
+            (r'bool prio_use_tail\(\)', 'pq_prio_use_tail', None, None), (r'void prio_push\(const T &src', 'pq_prio_push', None, None),
+            (r'void prio_pop\(\)', 'pq_prio_pop', None, None), (r'const T& prio\(\)', 'pq_prio', None, 'const item_type*'),
+            (r'void heapify\(\)', 'pq_heapify', ('pqheapify', 2), None), (r'void reheap\(\)', 'pq_reheap', ('pqreheap', 1), None)]
+    # closed-world scan: reheap changes the array only through swap_items (so it permutes the heap region: nothing lost, nothing duplicated - swap_items itself is job pq.swap_items)
+    rh = slice_block(FG, r'void reheap\(\)', within=PQ).text
+    if re.search(r'\b(set_my_item|destroy_item|move_item|place_item|fetch_item|push_back|pop_back|pop_front|destroy_front|destroy_back|grow_my_array|my_array|(?:my_tail|my_head|mark)\s*(?:[-+]?=(?!=)|\+\+|--)|(?:\+\+|--)\s*(?:this->)?(?:my_tail|my_head|mark))', cxx2c.mask(rh)) \
+            or len(re.findall(r'\bswap_items\(', rh)) != 1:
+        raise ExtractionBreak('priority_queue_node::reheap: the array is written by something else than one swap_items call (closed-world scan)')
+    # the validity asserts inside the item_buffer accessors talk about a state-dependent index: they get their own macro (VALID_ASSERT) so that the
+    # heap-loop jobs, which cannot carry the universal fact `every slot of [0,tail) holds an item` through a havocked iteration, can leave them out
+    ibtxt = re.sub(r'VERIF_ASSERT\((item_buffer_my_item_valid\()', r'VALID_ASSERT(\1', ibtxt)
+    ibtxt = re.sub(r'VERIF_ASSERT\((!item_buffer_my_item_valid\()', r'EMPTY_ASSERT(\1', ibtxt)     # `the destination slot is empty`: stays an obligation everywhere
+    hp = slice_block(FG, r'void heapify\(\)', within=PQ).text
+    if re.search(r'\b(set_my_item|destroy_item|swap_items|push_back|pop_back|pop_front|destroy_front|destroy_back|grow_my_array|my_array|(?:my_tail|my_head)\s*(?:[-+]?=(?!=)|\+\+|--)|(?:\+\+|--)\s*(?:this->)?(?:my_tail|my_head))', cxx2c.mask(hp)) \
+            or len(re.findall(r'\bfetch_item\(', hp)) != 1 or len(re.findall(r'\bmove_item\(', hp)) != 1 or len(re.findall(r'\bplace_item\(', hp)) != 1:
+        raise ExtractionBreak('priority_queue_node::heapify: the array is written by something else than one fetch_item / move_item / place_item call each (closed-world scan)')
+    c15c = open(os.path.join(HERE, 'c15.c')).read()
+    a_ = c15c.find('#ifdef SEQ\n')
+    e_ = c15c.find('#include "item_buffer.inc"', a_)
+    if a_ < 0 or e_ < 0 or 'CONTRACT_grow_my_array' not in c15c[a_:e_]:
+        raise ExtractionBreak('c15.c: SEQ prelude not found')
+    common.write(ctx, 'c15_prelude.inc', c15c[a_ + len('#ifdef SEQ\n'):e_])
+    extract_bufnode_handler(ctx, sliced, fired, ib, ibtxt, [('size_t', 'mark', ''), ('item_type', 'reserved_item', '')], PQ, sigs, 'priority_node.inc', dpre=DPRE,
+                            dmethods=(['prio_use_tail', 'prio_push', 'prio_pop', 'prio', 'heapify', 'reheap'], 'pq_'),
+                            anchors=[('void pq_heapify(struct item_buffer* self)', 'CONTRACT_pq_heapify'), ('void pq_reheap(struct item_buffer* self)', 'CONTRACT_pq_reheap')],
+                            outlines=[(r'for \(; self->mark<self->my_tail; \+\+self->mark\) LOOP_pqheapify_1', 'pq_heapify_merge_one', 'struct item_buffer* self', 'self', 'CONTRACT_pq_merge_one')])
+
+
+def extract_hash_buffer(ctx, sliced, fired, fname, extra=''):
+    """hash_buffer_impl::insert_with_key / find_ref_with_key / find_with_key (the chain walks find_element_ref_with_key, delete_with_key, grow_array and
+    internal_insert_with_key are stubs over an abstract table)."""
+    hb = CClass(TB, r'class hash_buffer_impl : public HashCompare \{', 'hashbuf', tbind={'Knoref': 'key_type', 'pointer_type': 'value_type*'}, rw=Rewriter('hash_buffer_impl'))
+    for pat, what in ((r'size_t my_size;', 'my_size'), (r'size_t nelements;', 'nelements'), (r'ValueToKey \*my_key;', 'my_key')):
+        if not re.search(pat, hb.text):
+            raise ExtractionBreak('hash_buffer_impl::%s declaration changed' % what)
+    hb.members = [('size_t', 'my_size', ''), ('size_t', 'nelements', '')]
+    rw = hb.rw
+    PRE = [(r'__TBB_ASSERT\(my_key, "[^"]*"\);', 'RG_NOP();', 0), (r'tbb::detail::invoke\(\*my_key, v\)', 'KEY_OF(v)', 0),
+           (r'find_element_ref_with_key\(([^,()]*(?:\([^()]*\))?), (\w+)\)', r'HB_find_element_ref_with_key(self, \1, &\2)', 0),
+           (r'p->destroy_element\(\);', 'ELEM_destroy(self, p);', 0), (r'p->create_element\(v\);', 'ELEM_create(self, p, v);', 0),
+           (r'grow_array\(\);', 'HB_grow_array(self);', 0), (r'internal_insert_with_key\(pointer_array, my_size, free_list, v\);', 'HB_internal_insert_with_key(self, v);', 0),
+           (r'\bv = element_ptr->get_value_ptr\(\);', '*v = ELEM_value_ptr(element_ptr);', 0),
+           (r'if\(find_ref_with_key\(k, p\)\)', 'if(find_ref_with_key(k, &p))', 0), (r'\bv = \*p;', '*v = *p;', 0)]
+    out = []
+    for sig, cfn in ((r'bool insert_with_key\(const value_type &v, Args&&\.\.\. args\)', 'hb_insert_with_key'), (r'bool find_ref_with_key\(const Knoref& k, pointer_type &v\)', 'hb_find_ref_with_key'),
+                     (r'bool find_with_key\( const Knoref& k, value_type &v\)', 'hb_find_with_key')):
+        sl = hb.method(sig)
+        t = rw.sub(sl.text, r', Args&&\.\.\. args', '', 0, name='empty parameter pack (no metainfo) dropped')
+        t = rw.sub(t, r', std::forward<Args>\(args\)\.\.\.', '', 0, name='empty parameter pack (no metainfo) dropped')
+        t = rw.sub(t, r'const Knoref& k', 'const Knoref k', 0, name='const reference to the (trivially copyable) key -> by value')
+        t = hb.convert(Slice(sl.rel, sl.start, sl.end, t, sl.line), cfn, pre=PRE)
+        t = rw.sub(t, r'(?<![\w.>])find_ref_with_key\(', 'hb_find_ref_with_key(self, ', 0, name='method')
+        out.append(t)
+    txt = hb.struct_decl().replace('};', '    struct hb_ghost g;   /* abstract table content (harness) */\n' + extra + '};') + ''.join(x[:x.index('{')].strip() + ';\n' for x in out) + '\n'.join(out)
+    common.write(ctx, fname, _nocxx(fname, txt))
+    sliced += hb.sliced
+    fired['hash_buffer_impl(%s)' % fname] = dict(rw.fired)
+
+
+def extract_join_key(ctx, sliced, fired):
+    extract_hash_buffer(ctx, sliced, fired, 'hash_buffer.inc')
+    # ---------------- key_matching_port::handle_operations ----------------
+    kp = CClass(JI, r'class key_matching_port :', 'hashbuf', tbind={'input_type': 'value_type'}, rw=Rewriter('key_matching_port'))
+    if not re.search(r'matching_forwarding_base<key_type> \*my_join;', kp.text):
+        raise ExtractionBreak('key_matching_port::my_join declaration changed')
+    kp.members = []
+    s = resolved(kp.method(r'void handle_operations\(key_matching_port_operation\* op_list\)'), 'kp_handle_operations')
+    t = kp.convert(s, 'kp_handle_operations', pre=[
+        (r'this->insert_with_key\(current->my_val\)', 'hb_insert_with_key(self, &current->my_val)', 0),
+        (r'this->find_with_key\(my_join->current_key, \*\(current->my_arg\)\)', 'hb_find_with_key(self, FE_current_key(self), current->my_arg)', 0),
+        (r'this->delete_with_key\(my_join->current_key\);', 'HB_delete_with_key(self, FE_current_key(self));', 0),
+        (r'tbb::detail::suppress_unused_warning\(find_result\);', 'RG_NOP();', 0), STATUS])
+    t = tag_loops(t, 'kpho', kp.rw, expect=1)
+    common.write(ctx, 'key_port.inc', _nocxx('key_port.inc', _enum(JI, r'enum op_type \{ try__put, get__item, res_port\s*\};', 'key_matching_port::op_type') + t))
+    sliced += kp.sliced
+    fired['key_matching_port'] = dict(kp.rw.fired)
+    # ---------------- join_node_FE<key_matching>::handle_operations + fill_output_buffer ----------------
+    extract_hash_buffer(ctx, sliced, fired, 'hash_buffer_fe.inc', extra='    key_type current_key;   /* member of the base matching_forwarding_base (one flattened object) */\n')
+    fk = CClass(JI, r'class join_node_FE<key_matching<K,KHash>, InputTuple, OutputTuple> : public matching_forwarding_base<K>,', 'hashbuf',
+                tbind={'unref_key_type': 'key_type', 'count_element_type': 'value_type', 'output_type': 'output_type'}, rw=Rewriter('join_node_FE<key_matching>'))
+    if not re.search(r'current_key_type current_key;', load(JI)):
+        raise ExtractionBreak('matching_forwarding_base::current_key declaration changed')
+    fk.members = []
+    KPRE = [(r'unref_key_type &t\b', 'unref_key_type t', 0),          # reference to the (trivially copyable, never written) key -> copy
+            (r'this->buffer_empty\(\)', 'OB_buffer_empty(self)', 0), (r'is_graph_active\(this->graph_ref\)', 'STUB_is_graph_active()', 0),
+            (r'this->delete_with_key\(this->current_key\);', 'HB_delete_with_key(self, this->current_key);', 0),
+            (r'join_helper<N>::get_items\(my_inputs, l_out\)', 'jh_get_items(N, self, &l_out)', 0), (r'join_helper<N>::reset_ports\(my_inputs\);', 'jh_reset_ports(N, self);', 0),
+            (r'this->push_back\(l_out\);', 'OB_push_back(self, &l_out);', 0),
+            (r'd1::small_object_allocator allocator\{\};', 'RG_NOP();', 0), (r'typedef forward_task_bypass<base_node_type> task_type;', 'RG_NOP();', 0),
+            (r'allocator\.new_object<task_type>\(this->graph_ref, allocator, \*my_node\)', 'STUB_new_forward_task(self)', 0),
+            (r'this->destroy_front\(\);', 'OB_destroy_front(self);', 0),
+            (r'this->find_ref_with_key\(t, ?p\)', 'hb_find_ref_with_key(self, t, &p)', 0), (r'this->insert_with_key\(ev\);', 'hb_insert_with_key(self, &ev);', 0),
+            (r'\*\(current->my_output\) = this->front\(\);', '*(current->my_output) = *OB_front(self);', 0), STATUS]
+    out = []
+    sl = resolved(fk.method(r'graph_task\* fill_output_buffer\(unref_key_type &t\)'), 'fill_output_buffer')
+    sl = Slice(sl.rel, sl.start, sl.end, fk.rw.sub(sl.text, r'fill_output_buffer\(unref_key_type &t\)', 'fill_output_buffer(unref_key_type t)', 1, 1, name='reference to the (trivially copyable, never written) key -> by value'), sl.line)
+    t = fk.convert(sl, 'fek_fill_output_buffer', pre=KPRE)
+    out.append(t)
+    t = fk.convert(resolved(fk.method(r'void handle_operations\(key_matching_FE_operation\* op_list\)'), 'fek_handle_operations'), 'fek_handle_operations', pre=KPRE, fcast=['size_t'])
+    t = fk.rw.sub(t, r'(?<![\w.>])fill_output_buffer\(t\)', 'fek_fill_output_buffer(self, t)', 0, name='method')
+    t = tag_loops(t, 'fkho', fk.rw, expect=1)
+    out.append(t)
+    common.write(ctx, 'key_fe.inc', _nocxx('key_fe.inc', _enum(JI, r'enum op_type \{ res_count, inc_count, may_succeed, try_make \};', 'join_node_FE<key_matching>::op_type') + '\n'.join(out)))
+    sliced += fk.sliced
+    fired['join_node_FE<key_matching>'] = dict(fk.rw.fired)
+
+
 def extract(ctx):
     sliced, fired = [], {}
     # ---------------- limiter_node ------------------------------------------------
@@ -112,7 +506,13 @@ def extract(ctx):
               (r'bool buffer_full\(\)', 'item_buffer_buffer_full', [], None),
               (r'void destroy_front\(\)', 'item_buffer_destroy_front', [], None),
               (r'bool push_back\(item_type& v\s', 'item_buffer_push_back', [(r'set_my_item\(my_tail, v\);', 'set_my_item(my_tail, v);', 1)], None),
-              (r'bool pop_front\(item_type& v\s', 'item_buffer_pop_front', [(r'v = e->item;', '*v = e->item;', 1)], None)]
+              (r'bool pop_front\(item_type& v\s', 'item_buffer_pop_front', [(r'v = e->item;', '*v = e->item;', 1)], None),
+              # used by the join ports / priority_queue_node / queue forwarding sections
+              (r'bool buffer_empty\(\) const', 'item_buffer_buffer_empty', [], None),
+              (r'const item_type& front\(\) const', 'item_buffer_front', [(r'return get_my_item\(my_head\);', 'return get_my_item(my_head);', 0)], 'const item_type*'),
+              (r'void fetch_item\(size_t i, item_type &o\)', 'item_buffer_fetch_item', [(r'\bo = get_my_item\(i\);', '*o = *get_my_item(i);', 0)], None),
+              (r'void move_item\(size_t to, size_t from\)', 'item_buffer_move_item', [], None),
+              (r'void swap_items\(size_t i, size_t j\)', 'item_buffer_swap_items', [(r'item_type temp = get_my_item\(i\);', 'item_type temp = *get_my_item(i);', 0), (r'set_my_item\(j, temp\);', 'set_my_item(j, &temp);', 0)], None)]
     ib, rw, conv = extract_item_buffer(ctx, sliced, fired, more=more15)
     ibp = os.path.join(ctx.work, 'item_buffer.inc')
     txt_ib = open(ibp).read()
@@ -137,6 +537,10 @@ def extract(ctx):
     common.write(ctx, 'sequencer.inc', t)
     sliced += ib.sliced + sq.sliced
     fired['item_buffer'] = rw.fired
+    extract_priority(ctx, sliced, fired, ib, open(ibp).read())
+    extract_join(ctx, sliced, fired, ib)
+    extract_join_base(ctx, sliced, fired)
+    extract_join_key(ctx, sliced, fired)
     return sliced, fired
 
 
@@ -145,6 +549,8 @@ def build(ctx):
     C = os.path.join(HERE, 'c15.c')
     jobs = [
         Job('limiter.try_put', C, 'h_lim_try_put', route='RG', defines=['LIM'], target='limiter_node::try_put_task_impl + check_conditions', source=FG),
+        # domain split: the put is delivered AND absorbs an early decrement (my_future_decrement), which frees capacity
+        Job('limiter.try_put.early_decrement', C, 'h_lim_try_put_early', route='RG', defines=['LIM'], target='limiter_node::try_put_task_impl, delivered attempt that absorbs an early decrement', source=FG),
         Job('limiter.forward', C, 'h_lim_forward', route='RG', defines=['LIM'], target='limiter_node::forward_task', source=FG),
         Job('limiter.decrement', C, 'h_lim_decrement', route='RG', defines=['LIM'], target='limiter_node::decrement_counter', source=FG),
         Job('buffer.grow_my_array', C, 'h_ib_grow', route='LC', enforce='item_buffer_grow_my_array', loops=True, nloops=4, defines=['SEQ'], timeout=900, target='item_buffer::grow_my_array + clean_up_buffer', source=IB),
@@ -152,21 +558,77 @@ def build(ctx):
         Job('sequencer.push', C, 'h_seq_push', route='LC', replace=['item_buffer_grow_my_array'], defines=['SEQ'], target='sequencer_node::internal_push + item_buffer::place_item/set_my_item/my_item_valid/element/size/capacity', source=FG, timeout=600),
         Job('sequencer.push.tagmax', C, 'h_seq_push_tagmax', route='LC', replace=['item_buffer_grow_my_array'], defines=['SEQ'], target='sequencer_node::internal_push, tag == SIZE_MAX', source=FG, timeout=600),
     ]
+    for k, opn in enumerate(['get_item', 'reset_port', 'try_put_task']):
+        jobs.append(Job('join.qport.%s' % opn, C, 'h_qp_op', route='LC', defines=['SEQ', 'JQP', 'OPK=%d' % k], loops=True, nloops=0, replace=['item_buffer_grow_my_array'], timeout=600,
+                        target='queueing_port::handle_operations(%s) on the real item_buffer (one arbitrary operation in an arbitrary invariant state)' % opn, source=JI))
+    for nm, tgt in (('decrement', 'decrement_port_count'), ('make_tuple', 'try_to_make_tuple + tuple_build_may_succeed + join_helper<N>::get_items / get_my_item'),
+                    ('accept_reject', 'tuple_accepted (reset_port_count + join_helper<N>::reset_ports / reset_my_port) / tuple_rejected')):
+        jobs.append(Job('join.fe.queueing.%s' % nm, C, 'h_feq_%s' % nm, route='RG', defines=['JFEQ'], unwind=12, timeout=600, target='join_node_FE<queueing>::%s (tuple size N symbolic in 1..10)' % tgt, source=JI))
+    for nm, tgt in (('count', 'decrement_port_count / increment_port_count'), ('make_tuple', 'try_to_make_tuple + join_helper<N>::reserve / release_my_reservation'),
+                    ('accept_reject', 'tuple_accepted / tuple_rejected + join_helper<N>::consume_reservations / release_reservations')):
+        jobs.append(Job('join.fe.reserving.%s' % nm, C, 'h_fer_%s' % nm, route='RG', defines=['JFER'], unwind=12, timeout=600, target='join_node_FE<reserving>::%s (tuple size N symbolic in 1..10)' % tgt, source=JI))
+    for k, opn in enumerate(['reg_pred', 'rem_pred', 'res_item', 'rel_res', 'con_res']):
+        jobs.append(Job('join.rport.%s' % opn, C, 'h_rp_op', route='LF', defines=['JRP', 'OPK=%d' % k], unwind=3, timeout=300,
+                        target='reserving_port::handle_operations(%s) (one arbitrary operation in an arbitrary invariant state)' % opn, source=JI))
+    for k, opn in ((0, 'reg_succ'), (1, 'rem_succ'), (2, 'try_get'), (4, 'do_fwrd_bypass')):
+        jobs.append(Job('join.base.%s' % opn, C, 'h_jb_op', route='LC', defines=['JB', 'OPK=%d' % k], loops=True, nloops=(1 if opn == 'do_fwrd_bypass' else 0), timeout=300,
+                        target='join_node_base::handle_operations(%s) + combine_tasks (any policy: the front end is a protocol stub)' % opn, source=JI))
+    for k, opn in enumerate(['try_put', 'get_item', 'reset_port']):
+        jobs.append(Job('join.kport.%s' % opn, C, 'h_kp_op', route='LF', defines=['JKP', 'OPK=%d' % k], unwind=3, timeout=300,
+                        target='key_matching_port::handle_operations(%s) + hash_buffer_impl::insert_with_key / find_with_key / find_ref_with_key' % opn, source=JI))
+    # domain split: a second message with a key the port already holds
+    jobs.append(Job('join.kport.try_put.duplicate_key', C, 'h_kp_dup', route='LF', defines=['JKP'], unwind=3, timeout=300,
+                    target='key_matching_port::handle_operations(try_put) + hash_buffer_impl::insert_with_key, key already present', source=TB))
+    for k, opn in enumerate(['reset_port_count', 'increment_key_count', 'tuple_build_may_succeed', 'try_to_make_tuple']):
+        jobs.append(Job('join.fe.key.%s' % opn, C, 'h_kfe_op', route='LW', defines=['JKF', 'OPK=%d' % k], unwind=12, timeout=600,
+                        target='join_node_FE<key_matching>::handle_operations(%s)%s' % (opn, ' + fill_output_buffer + join_helper<N>::get_items / reset_ports + hash_buffer_impl::insert_with_key / find_ref_with_key (N symbolic in 1..10)' if k == 1 else ''), source=JI))
+    jobs.append(Job('prio.swap_items', C, 'h_pq_swap', route='LF', defines=['PQ'], timeout=300, target='item_buffer::swap_items / set_my_item / get_my_item', source=IB))
+    jobs.append(Job('prio.reheap', C, 'h_pq_reheap', route='LC', defines=['PQ', 'PQ_LOOPS'], enforce='pq_reheap', loops=True, nloops=1, timeout=900,
+                    target='priority_queue_node::reheap (heap order re-established at an arbitrary index, every size)', source=FG))
+    jobs.append(Job('prio.heapify.merge_one', C, 'h_pq_merge_one', route='LC', defines=['PQ', 'PQ_LOOPS', 'PQ_MERGE_ENFORCE'], enforce='pq_heapify_merge_one', loops=True, nloops=1, timeout=1800,
+                    target='priority_queue_node::heapify, body of the outer loop: one pushed item is sifted up (heap order on the path of an arbitrary index)', source=FG))
+    jobs.append(Job('prio.heapify.loop', C, 'h_pq_heapify', route='LC', defines=['PQ', 'PQ_LOOPS', 'PQ_MERGE_STUB'], loops=True, nloops=1, timeout=600,
+                    target='priority_queue_node::heapify, outer loop (bookkeeping: which items are merged, mark reaches tail)', source=FG))
     return {
         'jobs': jobs, 'sliced': sliced, 'fired': fired,
         'trusted': ['my_mutex serialises the locked sections (spin_mutex: C08); each section is one atomic step of the rely/guarantee argument',
-                    'successor/predecessor caches, graph activity, task allocation: nondeterministic stubs (every accept/reject pattern)',
-                    'buffers up to 2^16 slots (stated bound of the grow_my_array contract)'],
+                    'successor/predecessor caches, graph activity, task allocation: nondeterministic stubs (every accept/reject pattern); within one locked section of limiter_node the three values it reads of its surroundings (predecessor cache empty, successor cache empty, graph active) are one snapshot',
+                    'buffers up to 2^16 slots (stated bound of the grow_my_array contract)',
+                    'join ports / front ends / base: each aggregator runs its handler on one thread at a time and hands every record to it exactly once (aggregator_generic: C13 job agg.execute); every join job is ONE arbitrary operation in an arbitrary invariant state (inductive step of the batch loop)',
+                    'join_node_FE jobs: the ports are stubs with the behaviour the port-handler jobs prove (join.qport.* / join.rport.* / join.kport.*): a counted queueing port holds a message and hands out its front one; a reserving port refuses a second reservation; a key-matching port hands out / retires the message filed under current_key',
+                    'join.qport.*: join_node_FE<queueing>::decrement_port_count is a stub with the contract of job join.fe.queueing.decrement; join.rport.*: reservable_predecessor_cache is a ghost (count of cached predecessors, open reservation) with the behaviour of C14 jobs pull.reservable.*',
+                    'join.base.*: the front end (any policy) is a protocol stub (built / accepted / rejected); my_successors (broadcast_cache) as proved by C14 job cache.broadcast.try_put_task; is_graph_active, new_object, order_tasks (either order), spawn_in_graph_arena: stubs',
+                    'hash_buffer_impl: the chain walks find_element_ref_with_key, delete_with_key, internal_insert_with_key and grow_array are stubs over an abstract table (one arbitrary key g_key, plus the key of the operation); insert_with_key / find_ref_with_key / find_with_key are the real text',
+                    'join_node_FE<key_matching>: the output buffer (item_buffer<OutputTuple>) is a FIFO ghost (push_back / front / destroy_front as proved by job buffer.push_pop)',
+                    'template recursion join_helper<N> -> run-time recursion over N with join_helper<1> selected by `if (N == 1)` (spec-written dispatcher around the two extracted bodies); N symbolic in 1..10',
+                    'priority_queue_node: Compare = std::less<int>; facts are about ONE arbitrary index GH; a contract proved for arbitrary GH is used at other indices derived from GH (universal generalisation over the ghost index)',
+                    'priority_queue_node::reheap permutes the heap region: closed-world scan (its only write is one swap_items call) + job prio.swap_items; heapify only moves items through fetch_item / move_item / place_item into slots proved empty (scan + EMPTY_ASSERT obligations)'],
         'drops': ['preview (#if __TBB_PREVIEW_FLOW_GRAPH_TRY_PUT_AND_WAIT) arms resolved to 0', 'scoped_lock -> LOCKED_SECTION() = interference point', 'metainfo arguments', 'aligned_space<T> -> plain struct',
-                  'placement new / destructor of a trivially copyable item_type (int)'],
-        'not_decided': ['join_node (tuple-recursive templates)', 'overwrite/write_once/broadcast/split/indexer nodes (successor caches)', 'queue_node / priority_queue_node ordering', 'buffer_node aggregator protocol (C13)',
-                        'interleavings of ports', 'negative decrements / decrements beyond what was delivered (outside the stated precondition)'],
-        'assumptions': ['decrement(delta): 0 < delta <= number of delivered, not yet decremented messages', 'item_type is trivially copyable (int)'],
+                  'placement new / destructor of a trivially copyable item_type (int)', 'status atomics of operation records -> SET_STATUS (handler-only access)', 'std::get<i>(tuple) -> PORT_* / TUPLE_AT macros',
+                  'implicit conversions / assignment of std::atomic<size_t> ports_with_no_* -> explicit load / store sites', 'TBB_USE_DEBUG arm of key_matching_port::get__item resolved to 0',
+                  'join_node_base: the `case do_fwrd_bypass` block is wrapped unchanged into a function of its own; priority_queue_node::heapify: the body of the outer loop is wrapped unchanged into pq_heapify_merge_one (dfcc cannot handle the nested loop contracts)',
+                  'priority section: TBB_ASSERT(my_item_valid(i)) inside the item_buffer accessors at state-dependent indices -> VALID_ASSERT, which the two heap-loop jobs leave out (universal slot-validity fact); `destination slot empty` asserts stay obligations',
+                  'empty parameter pack Args... of hash_buffer_impl::insert_with_key'],
+        'not_decided': ['overwrite/write_once/broadcast/split/indexer nodes', 'queue_node / sequencer_node forwarding order as derived handlers (internal_forward_task_impl + front): the item_buffer FIFO facts are jobs buffer.push_pop / sequencer.push, the queue_node handler is under C14',
+                        'priority_queue_node: internal_pop / internal_reserve / internal_release / internal_consume / prio_push / prio_pop / prio / try_put_and_add_task and the handler with the priority node as derived type are extracted (priority_node.inc) but have no job yet; '
+                        '`the item handed out is not lower than any merged item` needs heap order on the whole path to the root (17 instances), on which CBMC symbolic execution did not finish in 10 minutes',
+                        'priority_queue_node::heapify as a whole: proved are the merge lemma at an arbitrary index (prio.heapify.merge_one) and the bookkeeping of the outer loop (prio.heapify.loop); the induction over the outer loop with the invariant `heap order on the path of GH` '
+                        '(closure under parent, 17 instances) is a paper argument - dfcc symbolic execution does not finish on the two whole-array havocs',
+                        'hash_buffer_impl chain walks (find_element_ref_with_key, delete_with_key, internal_insert_with_key, grow_array) and its free list',
+                        'join_node: entry points around the aggregators (try_put_task_impl, get_item, reserve, ..., forward_task), constructors / reset, batches of more than one operation only as a sequence of inductive steps',
+                        'join reserving policy while edges are removed concurrently with forwarding (remove_edge racing with reserve: a port that loses its last predecessor between the front end\'s count test and its reserve is counted twice as `without predecessor`; outside the property\'s quantifier)',
+                        'interleavings inside one port/front-end beyond the rely/guarantee on ports_with_no_items / ports_with_no_inputs (SC atomics)',
+                        'limiter: negative decrements / decrements beyond what was delivered (outside the stated precondition)'],
+        'assumptions': ['decrement(delta): 0 < delta <= number of delivered, not yet decremented messages', 'item_type is trivially copyable (int); keys are int; messages of key_matching ports are (key, payload) pairs',
+                        'queueing ports: reset_port is issued by tuple_accepted only (after reset_port_count, once per port); a port is counted only by its own handler',
+                        'reserving ports: reserve is attempted only while the port has a cached predecessor (front end tests ports_with_no_inputs == 0); no edge removal while the join forwards or while a reservation is open',
+                        'key_matching: get_item / reset_port name a key only after all N ports counted a message with it; increment_key_count is issued once per accepted put',
+                        'join_node_base: do_fwrd_bypass is issued by the forward task only (forwarder_busy set); do_fwrd is a dead enumerator', 'sequentially consistent atomics'],
     }
 
 
 def replay(ctx, jobname, failure):
-    exe = native.build([os.path.join(HERE, 'c15_replay.cpp')], os.path.join(ctx.work, 'c15_replay'), link_tbb=True)
+    exe = native.build([os.path.join(HERE, 'c15_replay.cpp')], os.path.join(ctx.work, 'c15_replay'), flags=['-fno-access-control'], link_tbb=True)
     rc, out = native.run([exe, jobname], timeout=120)
     rep = {'cmd': exe + ' ' + jobname, 'rc': rc, 'output': out[-1500:], 'reproduced': False, 'detail': 'native recipes found no failing sequence'}
     m = re.search(r'REPRODUCED (.*)', out)
